@@ -145,6 +145,13 @@ def check_theorems(ctx, prop, coq_files):
 # ---------------------------------------------------------------- C++ side
 def compile_driver(ctx, d):
     exe = os.path.join(ctx.build, d["name"])
+    # shared objects a driver loads at run time (rlbox_dylib_sandbox): (source, output name, defines)
+    for src, outname, defs in d.get("prebuild", []):
+        rc, out = sh([d.get("cxx", CXX), "-std=c++17", "-O1", "-w", "-shared", "-fPIC"] + ["-D" + x for x in defs] +
+                     [os.path.join(VERIF, "harness", "drivers", src), "-o", os.path.join(ctx.build, outname)], timeout=600)
+        if rc != 0:
+            return d["name"], rc, out, exe
+    os.environ["VERIF_LIBDIR"] = ctx.build
     cmd = [d.get("cxx", CXX), "-std=c++17", d.get("opt", "-O1"), "-w", "-D" + GUARD,
            "-I" + INCLUDE, "-I" + os.path.join(VERIF, "harness")]
     cmd += ["-D" + x for x in d.get("defines", [])]
